@@ -456,14 +456,14 @@ class _Unfoldable(Exception):
 # AST helpers used by many rules
 
 def walk_no_nested(node):
-    """ast.walk that does not descend into nested function/class/lambda bodies."""
-    todo = list(ast.iter_child_nodes(node))
-    while todo:
-        n = todo.pop()
+    """Pre-order (document order) walk that does not descend into nested
+    function/class/lambda bodies."""
+    for n in ast.iter_child_nodes(node):
         yield n
         if isinstance(n, (ast.FunctionDef, ast.Lambda, ast.ClassDef, ast.AsyncFunctionDef)):
             continue
-        todo.extend(ast.iter_child_nodes(n))
+        for x in walk_no_nested(n):
+            yield x
 
 
 def calls_in(node, nested=False):
